@@ -50,7 +50,7 @@ type frEnvT struct {
 	progs    []*engine.Program
 
 	readErr, parseErr, generated, formatErr, parses, writeErr []frTri
-	match, replaceErr                                          [][]frTri
+	match, replaceErr                                         [][]frTri
 
 	effects    []frEffect
 	cur        int // file currently processed (set by ReadFile)
@@ -286,7 +286,7 @@ func StubFRDiffText(aName, bName string, a, b any, w io.Writer, options ...write
 }
 
 func StubFRLogNew(out io.Writer, prefix string, flag int) *log.Logger { return nil }
-func StubFRLogPrintf(l *log.Logger, format string, v ...any)         {}
+func StubFRLogPrintf(l *log.Logger, format string, v ...any)          {}
 
 type frWriter struct{ ch string }
 
